@@ -234,7 +234,24 @@ def run_check(check, tier, seed, replay=None, max_cases=None):
     violations = []   # (case, problems, impl_out, model_out)
     known_hits = {}
     harness_errors = []
-    deadline = t0 + budget + (t_drv + t_prop)
+    # warm-up: after a fresh restore the first import of pandas / scikit-learn / scipy / torch / fairlearn reads cold
+    # files for a minute or more; do it before the exploration budget starts
+    import importlib
+    warm = ["numpy", "pandas", "scipy.optimize", "sklearn.linear_model", "sklearn.tree", "sklearn.dummy",
+            "sklearn.metrics", "fairlearn.metrics", "fairlearn.reductions", "fairlearn.postprocessing",
+            "fairlearn.preprocessing"]
+    if pid in ("C16", "C17", "C19", "C20"):
+        warm += ["torch", "fairlearn.adversarial"]
+    t_warm = time.time()
+    for name in warm:
+        try:
+            importlib.import_module(name)
+        except Exception:  # noqa: BLE001  (a missing optional module is the check's own business)
+            pass
+    log(f"[{pid}] warm-up imports {time.time() - t_warm:.1f}s")
+    # the exploration budget starts NOW: build, axiom audit and (after a fresh restore) the cold first import of the
+    # Mathlib .olean files can take minutes and must not eat the case budget (vp check 5: C01 explored 3 cases)
+    deadline = time.time() + budget
     if proof_broken or tr_problems:
         # a proof obligation / translator tie no longer checks: widen the search for a concrete failing input
         ncases *= 3
